@@ -1,6 +1,7 @@
 CONSTANTS
   MaxLen = 0
   Depth = 0
+  WithShuffle = FALSE
 SPECIFICATION TSpec
 INVARIANT Judge
 CHECK_DEADLOCK FALSE
